@@ -568,8 +568,8 @@ func ruleStaleness(r *Run, rule string) {
 					assigned := false
 					for x := j + 1; x < len(p.Ev) && p.Ev[x].Kind != EvBranch && p.Ev[x].Kind != EvRange; x++ {
 						a := p.Ev[x]
-						if a.Kind == EvAssign && len(a.Lhs) == 1 && len(a.Rhs) == 1 && SameObj(fl.Info, a.Lhs[0], c.Args[0]) {
-							if _, m := FieldPath(fl.Info, a.Rhs[0], "workflow.State", f); m {
+						if a.Kind == EvAssign && len(a.Lhs) == 1 && len(a.Results()) == 1 && SameObj(fl.Info, a.Lhs[0], c.Args[0]) {
+							if _, m := FieldPath(fl.Info, a.Results()[0], "workflow.State", f); m {
 								assigned = true
 							}
 						}
@@ -817,6 +817,8 @@ func ruleFilterCompaction(r *Run, rule string) {
 	info := fl.Info
 	bad := ""
 	nStale, nLive := 0, 0
+	type staleRec struct{ stale, aged, removed, kept bool }
+	var recs []staleRec
 	for i := range paths {
 		p := &paths[i]
 		for j, e := range p.Ev {
@@ -832,7 +834,7 @@ func ruleFilterCompaction(r *Run, rule string) {
 			if !isStale {
 				continue
 			}
-			aged, removed := false, false
+			aged, removed, kept := false, false, false
 			for x := j + 1; x < len(p.Ev) && p.Ev[x].Kind != EvRange; x++ {
 				a := p.Ev[x]
 				if a.Kind != EvAssign || len(a.Lhs) != len(a.Rhs) {
@@ -847,18 +849,38 @@ func ruleFilterCompaction(r *Run, rule string) {
 							removed = true
 						}
 					}
+					// the partition form: the plan is appended to the local list that becomes the list to resume
+					if lo, isLocal := ObjOf(info, l).(*types.Var); isLocal && !lo.IsField() {
+						if c, isCall := ast.Unparen(a.Rhs[k]).(*ast.CallExpr); isCall {
+							if id, ok := c.Fun.(*ast.Ident); ok && id.Name == "append" && len(c.Args) >= 2 && ObjOf(info, c.Args[0]) == lo {
+								if sl, ok := lo.Type().Underlying().(*types.Slice); ok && ShortType(sl.Elem()) == "workflow.Plan" {
+									kept = true
+								}
+							}
+						}
+					}
 				}
 			}
-			if e.Taken {
-				nStale++
-				if (!aged || !removed) && bad == "" {
-					bad = "a stale plan is recorded as aged out=" + boolStr(aged) + " and removed from the list to resume=" + boolStr(removed) + ": it must be both, or it would be closed as Failed and then executed again"
-				}
-			} else {
-				nLive++
-				if (aged || removed) && bad == "" {
-					bad = "a live plan is treated as aged out"
-				}
+			recs = append(recs, staleRec{e.Taken, aged, removed, kept})
+		}
+	}
+	partition := false
+	for _, rc := range recs {
+		if rc.kept {
+			partition = true
+		}
+	}
+	for _, rc := range recs {
+		if rc.stale {
+			nStale++
+			gone := rc.removed || (partition && !rc.kept)
+			if (!rc.aged || !gone) && bad == "" {
+				bad = "a stale plan is recorded as aged out=" + boolStr(rc.aged) + " and removed from the list to resume=" + boolStr(gone) + ": it must be both, or it would be closed as Failed and then executed again"
+			}
+		} else {
+			nLive++
+			if (rc.aged || rc.removed || (partition && !rc.kept)) && bad == "" {
+				bad = "a live plan is treated as aged out (aged=" + boolStr(rc.aged) + ", dropped from the list to resume=" + boolStr(rc.removed || (partition && !rc.kept)) + ")"
 			}
 		}
 	}
